@@ -39,6 +39,9 @@ type item struct {
 	// starts with StopBefore and return the variable Result
 	StopBefore string
 	Result     string
+	// alternative cut: stop before the first statement whose printed text mentions this identifier (robust against
+	// rewrites of that statement)
+	StopAtMention string
 	// Go expressions (printed text) replaced by a fresh parameter "name:Type"; a key "text#n" stands for the n-th
 	// occurrence of that text in the function body, in source order (two calls that read different states)
 	Opaque map[string]string
@@ -67,7 +70,7 @@ var whitelist = []item{
 	{Func: "pieceToScore"},
 	{Func: "square.getRank"}, {Func: "square.getFile"}, {Func: "rankFrom07Number"},
 	{Func: "charToPiece"},
-	{Func: "calcEndtime", Lean: "calcEndtime_millis", StopBefore: "endtime :=", Result: "millisForMove",
+	{Func: "calcEndtime", Lean: "calcEndtime_millis", StopAtMention: "startTime", Result: "millisForMove",
 		Opaque: map[string]string{"posGen.getTopPos().flags&FlagWhiteTurn == 0": "isBlackTurn:Bool"}, Drop: []string{"startTime"}},
 	{Func: "LazyEvaluate", Lean: "LazyEvaluate_decision", Drop: []string{"pos", "debug"},
 		Opaque: map[string]string{"isCheckMate(pos)": "mate:Bool", "pieceSquareScore(pos, gamePhaseFactor, debug...)": "cheap:Int",
@@ -450,7 +453,7 @@ func (t *tr) seq(ss []ast.Stmt, d int, declared map[string]bool) string {
 		bad("control reaches the end of the function without a return")
 	}
 	s, rest := ss[0], ss[1:]
-	if t.cur.StopBefore != "" && strings.HasPrefix(t.text(s), t.cur.StopBefore) {
+	if (t.cur.StopBefore != "" && strings.HasPrefix(t.text(s), t.cur.StopBefore)) || (t.cur.StopAtMention != "" && strings.Contains(t.text(s), t.cur.StopAtMention)) {
 		if !declared[t.cur.Result] {
 			bad("result variable %s not defined before the cut", t.cur.Result)
 		}
@@ -503,6 +506,36 @@ func (t *tr) seq(ss []ast.Stmt, d int, declared map[string]bool) string {
 		}
 		return let(name, "(0 : Int)")
 	case *ast.AssignStmt:
+		if len(x.Lhs) > 1 && len(x.Lhs) == len(x.Rhs) && (x.Tok == token.DEFINE || x.Tok == token.ASSIGN) {
+			// parallel assignment: every right-hand side is evaluated before any variable is bound
+			out := ""
+			var names []string
+			for i, l := range x.Lhs {
+				id, ok := l.(*ast.Ident)
+				if !ok {
+					bad("assignment to %s", t.text(l))
+				}
+				leanType(t.info.TypeOf(id))
+				if id.Name != "_" {
+					if x.Tok == token.DEFINE && declared[id.Name] {
+						// := with at least one new variable may re-assign the others; an inner-scope redeclaration is refused
+						if _, isNew := t.info.Defs[id]; isNew && t.info.Defs[id] != nil {
+							bad("redeclaration of %s in an inner scope", id.Name)
+						}
+					}
+				}
+				out += fmt.Sprintf("let tmp%d__ := %s\n%s", i, t.expr(x.Rhs[i]), ind(d))
+				names = append(names, id.Name)
+			}
+			for i, n := range names {
+				if n == "_" {
+					continue
+				}
+				declared[n] = true
+				out += fmt.Sprintf("let %s := tmp%d__\n%s", mangle(n), i, ind(d))
+			}
+			return out + t.seq(rest, d, declared)
+		}
 		if len(x.Lhs) != 1 || len(x.Rhs) != 1 {
 			bad("multiple assignment")
 		}
@@ -532,7 +565,7 @@ func (t *tr) seq(ss []ast.Stmt, d int, declared map[string]bool) string {
 			return let(id.Name, t.expr(x.Rhs[0]))
 		default:
 			ops := map[token.Token]token.Token{token.ADD_ASSIGN: token.ADD, token.SUB_ASSIGN: token.SUB, token.MUL_ASSIGN: token.MUL, token.QUO_ASSIGN: token.QUO,
-				token.AND_ASSIGN: token.AND, token.OR_ASSIGN: token.OR, token.XOR_ASSIGN: token.XOR, token.AND_NOT_ASSIGN: token.AND_NOT}
+				token.REM_ASSIGN: token.REM, token.SHL_ASSIGN: token.SHL, token.SHR_ASSIGN: token.SHR, token.AND_ASSIGN: token.AND, token.OR_ASSIGN: token.OR, token.XOR_ASSIGN: token.XOR, token.AND_NOT_ASSIGN: token.AND_NOT}
 			op, ok := ops[x.Tok]
 			if !ok || !declared[id.Name] {
 				bad("assignment operator %s", x.Tok)
@@ -827,7 +860,7 @@ func (t *tr) translate(it *item) (def string, err string) {
 		// classification: partial iff the translated part can panic
 		part := false
 		for _, s := range bodyList {
-			if it.StopBefore != "" && strings.HasPrefix(t.text(s), it.StopBefore) {
+			if (it.StopBefore != "" && strings.HasPrefix(t.text(s), it.StopBefore)) || (it.StopAtMention != "" && strings.Contains(t.text(s), it.StopAtMention)) {
 				break
 			}
 			if t.mayPanic(s) {
@@ -848,7 +881,7 @@ func (t *tr) translate(it *item) (def string, err string) {
 	t.partial[ln] = t.isPart
 	pos := t.fset.Position(fd.Pos())
 	def = fmt.Sprintf("/-- Go: `%s` (%s)%s -/\ndef %s %s : %s :=\n  %s\n", it.Func, filepath.Base(pos.Filename),
-		map[bool]string{true: " - slice/expression, see go2lean whitelist", false: ""}[it.StopBefore != "" || it.ExprVar != ""],
+		map[bool]string{true: " - slice/expression, see go2lean whitelist", false: ""}[it.StopBefore != "" || it.StopAtMention != "" || it.ExprVar != ""],
 		ln, strings.Join(params, " "), rt, body)
 	return def, ""
 }
